@@ -131,6 +131,7 @@ def config_get(ctx: click.Context, key: str) -> None:
         thai-lint config get greeting
     """
     cfg = ctx.obj["config"]
+    key = _storage_key(key)
 
     if key not in cfg:
         click.echo(f"Configuration key not found: {key}", err=True)
@@ -142,6 +143,17 @@ def config_get(ctx: click.Context, key: str) -> None:
 # =============================================================================
 # Config Set Command
 # =============================================================================
+
+
+def _storage_key(key: str) -> str:
+    """Spelling under which a setting is kept.
+
+    The loader turns hyphens in top-level keys into underscores, so ``log-level`` and
+    ``log_level`` are one setting: storing the hyphenated spelling would write a second key that
+    escapes validation now, is validated (and may be rejected) on the next load, and cannot be
+    read back under the name it was set with.
+    """
+    return key.replace("-", "_")
 
 
 def _convert_value_type(value: str) -> bool | int | float | str:
@@ -202,6 +214,7 @@ def config_set(ctx: click.Context, key: str, value: str) -> None:
         thai-lint config set max_retries 5
     """
     cfg = ctx.obj["config"]
+    key = _storage_key(key)
     converted_value = _convert_value_type(value)
     cfg[key] = converted_value
 
